@@ -3,7 +3,7 @@
    C. acceptance / refusals            D. well-formedness of the emitted program
    E. the emitted program read at qubit level is the source program
    F. photon-count abstraction of post-selection: the analyzer's rule is sound and exact *)
-From Coq Require Import List Arith Bool PeanoNat Lia ZArith.
+From Coq Require Import List Arith Bool PeanoNat Lia Permutation.
 From LW Require Import Base.Sx Model.Convert.
 Import ListNotations.
 
@@ -1084,3 +1084,224 @@ Proof.
   destruct (g_qubits g) as [|a [|b [|]]]; try discriminate. cbn.
   destruct (touchedb post a), (touchedb post b); reflexivity.
 Qed.
+
+(* ------------------------------------------------------------------ *)
+(* E. the emitted program, read at qubit level, is the source program   *)
+(* ------------------------------------------------------------------ *)
+(* Any interpretation of named gates on ordered qubit lists ([act]) and of the
+   exchange of two qubits' mode pairs ([sw]) that satisfies the relabelling laws
+   below (they hold for operators on a tensor product; that the lightworks gate
+   objects realise such an interpretation is C13 + C02 + part F).  The theorem:
+   running the emitted operations equals running the source instructions, so
+   dispatch, mode arithmetic, target selection and swap insertion are right. *)
+Ltac eqbs_in :=
+  repeat (match goal with
+          | |- context [?a =? ?b] =>
+              lazymatch a with context [if _ then _ else _] => fail | _ => idtac end;
+              lazymatch b with context [if _ then _ else _] => fail | _ => idtac end;
+              destruct (Nat.eqb_spec a b)
+          end; cbv iota).
+
+Section Denote.
+  Variable St : Type.
+  Variable act : gname -> nat -> list nat -> St -> St.   (* gate, instruction id (angle), qubits *)
+  Variable sw : nat -> nat -> St -> St.
+  Hypothesis sw_comm : forall a b c d s,
+      a <> c -> a <> d -> b <> c -> b <> d -> sw a b (sw c d s) = sw c d (sw a b s).
+  (* conjugating a gate by an exchange relabels its qubits *)
+  Hypothesis sw_conj : forall a b g i qs s,
+      sw a b (act g i qs (sw a b s)) = act g i (map (transp a b) qs) s.
+  Hypothesis act_swap : forall i a b s, act Gswap i [a; b] s = sw a b s.
+  Hypothesis cz_sym : forall i a b s, act Gcz i [a; b] s = act Gcz i [b; a] s.
+  Hypothesis ccz_sym : forall i l l' s, Permutation l l' -> act Gccz i l s = act Gccz i l' s.
+  Hypothesis ccx_sym : forall i a b t s, act Gccx i [a; b; t] s = act Gccx i [b; a; t] s.
+
+  Definition pidx (g : gname) (i : nat) : nat := if is_rot g then i else 0.
+  Definition half (m : nat) : nat := Nat.div2 m.
+
+  (* meaning of one emitted operation: modes (2q, 2q+1) are qubit q *)
+  Definition den (o : eop) (s : St) : St :=
+    match o with
+    | EGate1 g i m => act g (pidx g i) [half m] s
+    | ESwap _ a0 _ b0 _ => sw (half a0) (half b0) s
+    | ECZ _ m => act Gcz 0 [half m; half m + 1] s
+    | ECX _ t m => act Gcx 0 [half m + (1 - t); half m + t] s          (* [control; target] *)
+    | ECCZ m => act Gccz 0 [half m; half m + 1; half m + 2] s
+    | ECCX t m =>                                                      (* [controls; target] *)
+        let q := half m in
+        act Gccx 0 (match t with 0 => [q + 1; q + 2; q] | 1 => [q; q + 2; q + 1] | _ => [q; q + 1; q + 2] end) s
+    end.
+  Definition run_ops (ops : list eop) (s : St) : St := fold_left (fun s o => den o s) ops s.
+
+  (* meaning of a source instruction *)
+  Definition src (i : nat) (g : qgate) (s : St) : St :=
+    act (g_name g) (pidx (g_name g) i) (g_qubits g) s.
+  Fixpoint run_src (i : nat) (gs : list qgate) (s : St) : St :=
+    match gs with [] => s | g :: rest => run_src (S i) rest (src i g s) end.
+
+  Lemma half_double q : half (2 * q) = q.
+  Proof. unfold half. apply Nat.div2_double. Qed.
+
+  Lemma run_ops_app a b s : run_ops (a ++ b) s = run_ops b (run_ops a s).
+  Proof. unfold run_ops. apply fold_left_app. Qed.
+
+  Definition run_swaps (l : list (nat * nat)) (s : St) : St :=
+    fold_left (fun s p => sw (fst p) (snd p) s) l s.
+
+  Lemma run_ops_swaps l s :
+    run_ops (map (fun p => emit_swap true (fst p) (snd p)) l) s = run_swaps l s.
+  Proof.
+    revert s. induction l as [|p l IH]; intros s; [reflexivity|].
+    cbn [map]. unfold run_ops, run_swaps in *. cbn [fold_left]. rewrite IH.
+    unfold emit_swap, den, mode0. rewrite !half_double. reflexivity.
+  Qed.
+
+  (* conjugation by the routing swaps relabels by the same permutation *)
+  Lemma route_conj mn lo mx g i qs s : mn <= lo -> lo + 1 <= mx ->
+    run_swaps (route_swaps mn lo (lo + 1) mx)
+      (act g i qs (run_swaps (route_swaps mn lo (lo + 1) mx) s)) =
+    act g i (map (apply_swaps (route_swaps mn lo (lo + 1) mx)) qs) s.
+  Proof.
+    intros H1 H2. unfold route_swaps.
+    destruct (Nat.eqb_spec mn lo); destruct (Nat.eqb_spec mx (lo + 1));
+      cbn [app run_swaps apply_swaps fold_left fst snd].
+    - rewrite map_id. reflexivity.
+    - rewrite sw_conj. reflexivity.
+    - rewrite sw_conj. reflexivity.
+    - rewrite (sw_comm mx (lo + 1) mn lo) by lia. rewrite sw_conj.
+      rewrite sw_conj. rewrite map_map. f_equal. apply map_ext. intros x.
+      unfold apply_swaps; cbn [fold_left fst snd]; unfold transp. eqbs_in; lia.
+  Qed.
+
+  Lemma run_sandwich rs gate s :
+    run_ops (map (fun p => emit_swap true (fst p) (snd p)) rs ++
+             gate :: map (fun p => emit_swap true (fst p) (snd p)) rs) s =
+    run_swaps rs (den gate (run_swaps rs s)).
+  Proof.
+    rewrite run_ops_app, run_ops_swaps.
+    change (run_ops (gate :: ?l) ?x) with (run_ops l (den gate x)).
+    rewrite run_ops_swaps. reflexivity.
+  Qed.
+
+  Lemma add_two_den g q0 q1 ps ops s :
+    (g = Gcx \/ g = Gcz) -> q0 <> q1 -> add_two g q0 q1 ps = Ok ops ->
+    run_ops ops s = act g 0 [q0; q1] s.
+  Proof.
+    intros Hn Hne H.
+    pose proof (mid_lo_bounds q0 q1 Hne) as [B1 B2].
+    unfold add_two in H. rewrite adjacent_closed in H by auto. unfold adjacent_result in H.
+    set (lo := mid_lo q0 q1) in *.
+    fold (route_swaps (Nat.min q0 q1) lo (lo + 1) (Nat.max q0 q1)) in H.
+    assert (A0 : apply_swaps (route_swaps (Nat.min q0 q1) lo (lo + 1) (Nat.max q0 q1)) lo = Nat.min q0 q1)
+      by (rewrite route_swaps_apply by auto; eqbs; lia).
+    assert (A1 : apply_swaps (route_swaps (Nat.min q0 q1) lo (lo + 1) (Nat.max q0 q1)) (lo + 1) = Nat.max q0 q1)
+      by (rewrite route_swaps_apply by auto; eqbs; lia).
+    destruct (Nat.ltb_spec q0 q1) as [L|L].
+    - replace (Nat.min lo (lo + 1)) with lo in H by lia.
+      replace (lo + 1 - lo) with 1 in H by lia.
+      destruct Hn; subst g; inversion H; subst ops; clear H; rewrite run_sandwich;
+        cbn [den]; unfold mode0; rewrite half_double; rewrite route_conj by auto; cbn [map].
+      + replace (lo + (1 - 1)) with lo by lia. rewrite A0, A1. f_equal. f_equal; [lia|f_equal; lia].
+      + rewrite A0, A1. f_equal. f_equal; [lia|f_equal; lia].
+    - replace (Nat.min (lo + 1) lo) with lo in H by lia.
+      replace (lo - lo) with 0 in H by lia.
+      destruct Hn; subst g; inversion H; subst ops; clear H; rewrite run_sandwich;
+        cbn [den]; unfold mode0; rewrite half_double; rewrite route_conj by auto; cbn [map].
+      + replace (lo + (1 - 0)) with (lo + 1) by lia. rewrite Nat.add_0_r, A0, A1.
+        f_equal. f_equal; [lia|f_equal; lia].
+      + rewrite A0, A1. rewrite cz_sym. f_equal. f_equal; [lia|f_equal; lia].
+  Qed.
+
+  Lemma add_three_den g q0 q1 q2 ops s :
+    (g = Gccx \/ g = Gccz) -> NoDup [q0; q1; q2] ->
+    add_three g q0 q1 q2 true = Ok ops ->
+    run_ops ops s = act g 0 [q0; q1; q2] s.
+  Proof.
+    intros Hn Hnd H.
+    assert (D01 : q0 <> q1) by (inversion Hnd; subst; cbn in *; intuition).
+    assert (D02 : q0 <> q2) by (inversion Hnd; subst; cbn in *; intuition).
+    assert (D12 : q1 <> q2) by (inversion Hnd as [|? ? ? H4]; inversion H4; subst; cbn in *; intuition).
+    unfold add_three in H.
+    assert (Hm : max3 q0 q1 q2 - min3 q0 q1 q2 = 2).
+    { destruct (Nat.eqb_spec (max3 q0 q1 q2 - min3 q0 q1 q2) 2); auto.
+      destruct Hn; subst g; discriminate. }
+    assert (Hops : ops = [match g with Gccx => ECCX (q2 - min3 q0 q1 q2) (mode0 (min3 q0 q1 q2))
+                                     | _ => ECCZ (mode0 (min3 q0 q1 q2)) end]).
+    { destruct (Nat.eqb_spec (max3 q0 q1 q2 - min3 q0 q1 q2) 2); [|contradiction].
+      destruct Hn; subst g; inversion H; reflexivity. }
+    clear H. subst ops. unfold max3, min3 in *.
+    remember (Nat.min q0 (Nat.min q1 q2)) as lo eqn:Hlo.
+    unfold run_ops. cbn [fold_left].
+    destruct Hn; subst g; unfold den, mode0; rewrite half_double.
+    - assert (C : (q2 = lo /\ ((q0 = lo + 1 /\ q1 = lo + 2) \/ (q0 = lo + 2 /\ q1 = lo + 1))) \/
+                  (q2 = lo + 1 /\ ((q0 = lo /\ q1 = lo + 2) \/ (q0 = lo + 2 /\ q1 = lo))) \/
+                  (q2 = lo + 2 /\ ((q0 = lo /\ q1 = lo + 1) \/ (q0 = lo + 1 /\ q1 = lo)))) by lia.
+      clear Hlo Hm Hnd.
+      destruct C as [[E2 [[E0 E1]|[E0 E1]]]|[[E2 [[E0 E1]|[E0 E1]]]|[E2 [[E0 E1]|[E0 E1]]]]];
+        subst q0 q1 q2.
+      + rewrite Nat.sub_diag. reflexivity.
+      + rewrite Nat.sub_diag. apply ccx_sym.
+      + replace (lo + 1 - lo) with 1 by lia. reflexivity.
+      + replace (lo + 1 - lo) with 1 by lia. apply ccx_sym.
+      + replace (lo + 2 - lo) with 2 by lia. reflexivity.
+      + replace (lo + 2 - lo) with 2 by lia. apply ccx_sym.
+    - apply ccz_sym.
+      assert (C : (q0 = lo /\ ((q1 = lo + 1 /\ q2 = lo + 2) \/ (q1 = lo + 2 /\ q2 = lo + 1))) \/
+                  (q0 = lo + 1 /\ ((q1 = lo /\ q2 = lo + 2) \/ (q1 = lo + 2 /\ q2 = lo))) \/
+                  (q0 = lo + 2 /\ ((q1 = lo /\ q2 = lo + 1) \/ (q1 = lo + 1 /\ q2 = lo)))) by lia.
+      clear Hlo Hm Hnd.
+      destruct C as [[E0 [[E1 E2]|[E1 E2]]]|[[E0 [[E1 E2]|[E1 E2]]]|[E0 [[E1 E2]|[E1 E2]]]]];
+        subst q0 q1 q2.
+      + apply Permutation_refl.
+      + apply perm_skip, perm_swap.
+      + apply perm_swap.
+      + eapply perm_trans; [apply perm_swap|apply perm_skip, perm_swap].
+      + eapply perm_trans; [apply perm_skip, perm_swap|apply perm_swap].
+      + eapply perm_trans; [apply perm_swap|]. eapply perm_trans; [apply perm_skip, perm_swap|]. apply perm_swap.
+  Qed.
+
+  Lemma convert_gate_den i g ps ops s :
+    NoDup (g_qubits g) -> convert_gate i g ps = Ok ops -> run_ops ops s = src i g s.
+  Proof.
+    intros Hnd H. pose proof (convert_gate_ok_inv _ _ _ _ H) as [Ha Hacc].
+    destruct g as [n qs p]. unfold convert_gate, src in *. cbn [g_name g_qubits g_param] in *.
+    rewrite Ha in H. cbn [negb] in H.
+    destruct qs as [|q0 [|q1 [|q2 [|q3 r]]]]; try contradiction.
+    - assert (ops = [EGate1 n i (mode0 q0)]).
+      { unfold add_one in H. destruct (is_single n); [inversion H; auto|].
+        destruct p; cbn [negb] in H; [|discriminate]. destruct (is_rot n); inversion H; auto. }
+      subst ops. unfold run_ops. cbn [fold_left den]. unfold mode0. rewrite half_double. reflexivity.
+    - destruct Hacc as [->|[Hn Hne]].
+      + inversion H; subst. unfold run_ops, emit_swap. cbn [fold_left den pidx is_rot]. unfold mode0.
+        rewrite !half_double. rewrite act_swap. reflexivity.
+      + rewrite (add_two_den n q0 q1 ps ops s Hn Hne H).
+        destruct Hn; subst n; reflexivity.
+    - destruct Hacc as (Hn & -> & Hm).
+      rewrite (add_three_den n q0 q1 q2 ops s Hn Hnd H).
+      destruct Hn; subst n; reflexivity.
+  Qed.
+
+  Lemma conv_spec_den allow gs : forall i ops s,
+    Forall (fun g => NoDup (g_qubits g)) gs ->
+    conv_spec allow i gs = Ok ops -> run_ops ops s = run_src i gs s.
+  Proof.
+    induction gs as [|g rest IH]; intros i ops s Hd H; cbn [conv_spec] in H.
+    - inversion H. reflexivity.
+    - destruct (convert_gate i g (allow && can_ps g rest)) as [o1|e] eqn:E1; [|discriminate].
+      cbn [bind] in H. destruct (conv_spec allow (S i) rest) as [o2|e] eqn:E2; [|discriminate].
+      inversion H; subst ops. inversion Hd; subst.
+      rewrite run_ops_app. cbn [run_src]. rewrite (convert_gate_den _ _ _ _ _ H2 E1).
+      apply IH; auto.
+  Qed.
+
+  (* the emitted program denotes the source program, in every such interpretation *)
+  Lemma emitted_denotes_source allow gs ops rules s :
+    Forall (fun g => NoDup (g_qubits g)) gs ->
+    convert allow gs = Ok (ops, rules) ->
+    run_ops ops s = run_src 0 gs s.
+  Proof.
+    intros Hd H. rewrite convert_eq in H.
+    destruct (conv_spec allow 0 gs) as [o|e] eqn:E; [|discriminate]. inversion H; subst.
+    eapply conv_spec_den; eauto.
+  Qed.
+End Denote.
